@@ -44,6 +44,9 @@ class MemS3:
         # or "alt" (alternating).  Both mean: the write did NOT happen.
         self.conflict_code = "412"
         self._conflicts = 0
+        # every APPLIED put, in order: {"key", "replaced" (previous body or None), "body", "etag"} -- what the store itself
+        # did, whatever the client was told about it (a lost response, a request landing after the client gave up)
+        self.history: List[Dict[str, Any]] = []
 
     # ------------------------------------------------------------------ helpers
     def _call(self, op: str, key: str, kw: Dict[str, Any]) -> None:
@@ -87,9 +90,14 @@ class MemS3:
 
     def put_object(self, Bucket: str, Key: str, Body: Any = b"", IfMatch: Optional[str] = None,
                    IfNoneMatch: Optional[str] = None, **kw: Any) -> Dict[str, Any]:
-        self._call("put_object", Key, {"IfMatch": IfMatch, "IfNoneMatch": IfNoneMatch})
         if hasattr(Body, "read"):
             Body = Body.read()
+        self._call("put_object", Key, {"IfMatch": IfMatch, "IfNoneMatch": IfNoneMatch, "Body": Body})
+        return self.apply_put(Key, Body, IfMatch, IfNoneMatch)
+
+    def apply_put(self, Key: str, Body: Any, IfMatch: Optional[str] = None, IfNoneMatch: Optional[str] = None) -> Dict[str, Any]:
+        """The store's side of a PUT: evaluate the precondition and apply, atomically (also used for a request that lands
+        after its client has given up on it)."""
         o = self.objects.get(Key)
         if (IfNoneMatch == "*" and o is not None) or (IfMatch is not None and (o is None or o["etag"] != IfMatch)):
             self._conflicts += 1
@@ -98,6 +106,7 @@ class MemS3:
                 raise _err("ConditionalRequestConflict", "PutObject", 409)
             raise _err("PreconditionFailed", "PutObject", 412)
         out = {"ETag": self._put(Key, Body)}
+        self.history.append({"key": Key, "replaced": o["body"] if o is not None else None, "body": bytes(Body), "etag": out["ETag"]})
         if self.after_hook is not None:
             self.after_hook("put_object", Key)
         return out
